@@ -5,7 +5,7 @@ from .. import routes
 from ..cfg import CFG
 from ..facts import facts as nfacts
 from ..report import AnalysisError, borrow, norm
-from ..srcmodel import own_nodes, own_statements
+from ..srcmodel import own_nodes, own_statements, program_order
 from ..terms import Resolver, alternatives, show, walk
 
 PROP = "C02"
@@ -194,7 +194,7 @@ def r1_agreement(rep, ctx):
         return False
 
     seen = {}
-    for r in sorted((x for x in own_nodes(fn.node) if isinstance(x, ast.Return) and x.value is not None), key=lambda x: x.lineno):
+    for r in sorted((x for x in own_nodes(fn.node) if isinstance(x, ast.Return) and x.value is not None), key=program_order(fn.node)):
         t = res.term(r.value)
         for a_ in alternatives(t):
             sh = shape(a_)
